@@ -984,6 +984,86 @@ func registerHelpers(res *vkit.Result) {
 	res.Count("form_register-helper", 1)
 }
 
+// ---- pass 7: config fields that validate themselves ----
+
+// Mode is a string-kind config type whose own UnmarshalText decides what is valid.
+type Mode string
+
+func (m *Mode) UnmarshalText(b []byte) error {
+	switch string(b) {
+	case "fast", "slow":
+		*m = Mode(b)
+		return nil
+	}
+	return fmt.Errorf("unknown mode %q", b)
+}
+
+type MConf struct {
+	Mode  Mode `config:"mode"`
+	Level int  `config:"level"`
+}
+type MComp interface{ M() MConf }
+type mcomp struct{ c MConf }
+
+func (m *mcomp) M() MConf { return m.c }
+
+type mholder struct {
+	C  MComp                 `config:"c"`
+	F  func() (MComp, error) `config:"f"`
+	F2 func() MComp          `config:"f2"`
+}
+
+// selfValidatingFields: a value that the field's own UnmarshalText rejects is a config error like
+// any other: it reaches the caller for every constructor shape and requested form, and no
+// component is built with the raw text in the field.
+func selfValidatingFields(res *vkit.Result) {
+	mType := plugin.PtrType((*MComp)(nil))
+	ctors := map[string]any{
+		"value":   func(c MConf) MComp { return &mcomp{c} },
+		"pointer": func(c *MConf) (MComp, error) { return &mcomp{*c}, nil },
+		"factory": func(c MConf) func() (MComp, error) { return func() (MComp, error) { return &mcomp{c}, nil } },
+	}
+	for shape, ctor := range ctors {
+		name := "m-" + shape
+		if shape == "pointer" {
+			plugin.Register(mType, name, ctor, func() *MConf { return &MConf{Mode: "slow", Level: 1} })
+		} else {
+			plugin.Register(mType, name, ctor, func() MConf { return MConf{Mode: "slow", Level: 1} })
+		}
+		for _, val := range []string{"fast", "bogus", ""} {
+			for _, form := range []string{"c", "f", "f2"} {
+				c := map[string]any{"constructor": shape, "mode": val, "form": form}
+				var h mholder
+				var got MComp
+				err := config.Decode(map[string]any{form: map[string]any{"type": name, "mode": val, "level": 3}}, &h)
+				if err == nil {
+					switch form {
+					case "c":
+						got = h.C
+					case "f":
+						got, err = h.F()
+					case "f2":
+						if pv, panicked := callSafely(func() { got = h.F2() }); panicked {
+							err = fmt.Errorf("panic: %v", pv)
+						}
+					}
+				}
+				key := "C18/self-validating-field/" + shape
+				switch {
+				case val == "fast" && err != nil:
+					res.Violate(key+"/rejected", fmt.Sprintf("valid value rejected: %v", err), c)
+				case val == "fast" && (got == nil || got.M() != MConf{Mode: "fast", Level: 3}):
+					res.Violate(key+"/config", fmt.Sprintf("configured with %+v, want {Mode:fast Level:3}", got), c)
+				case val != "fast" && err == nil:
+					res.Violate(key+"/invalid-value-accepted", fmt.Sprintf("mode %q is rejected by the field's own UnmarshalText, yet a component was created with %+v", val, got.M()), c)
+				}
+				res.Eval(vkit.JSON(c), true)
+				res.Count("form_self-validating-field", 1)
+			}
+		}
+	}
+}
+
 func main() {
 	vkit.Fs() // registers the config hooks (pluginconfig.AddHooks via core import)
 	res := vkit.NewResult("exhaustive cross product of constructor shapes (component|factory × no config|struct|*struct × error result × inner error result / impl-typed result × default-config func) × requested form (New, factory with error, factory without error) × outcome (ok, constructor error, inner factory error, config error) × 1–5 factory calls with mutation of each product's config; plus every config-taking shape through the `type:` config hooks; plus plugins nested three deep in plugins of the same registered name and two overlapping creations (one held in the middle of decoding by a blocking field) for value/pointer/factory shapes; plus one decoded factory called from 16 goroutines at once (every product must come from its own freshly created default); distinct = distinct (shape, form, outcome, calls); all are non-trivial")
@@ -1013,6 +1093,7 @@ func main() {
 	sameFactoryConcurrently(res, vkit.N(60, 1500))
 	typeOnlySections(res)
 	registerHelpers(res)
+	selfValidatingFields(res)
 	res.Set("exhaustive", true)
 	res.Set("shapes", len(shapes()))
 	res.Sample(Case{Shape: shapes()[5], Form: "factory-noerr", Outcome: "config-error", Calls: 2})
